@@ -69,6 +69,10 @@ def failing_blocks(k):
     B.append(('raise_nonmatching_except', ['>>> try:', '...     t(%d)' % k, "...     raise ValueError('ne')", '... except KeyError:', '...     pass', '... finally:', '...     done = 1'],
               [], 2, 'ValueError', 'exception'))
     B.append(('called_code_in_try_finally', ['>>> try:', '...     called(%d)' % k, '... finally:', '...     z = 0'], [], 1, 'KeyError', 'exception'))
+    # texts that are dangerous as format strings / templates: percent signs, braces, backslashes in output, want and message
+    B.append(('wrong_output_percent_table', [">>> print('a 10%%\\nb 20%%\\nc 30%%\\nd 40%% {0} {x} \\\\d', t(%d))" % k], ['a 10%', 'b 20%', 'c 99%', 'd 40% {0} {x} \\d ' + str(k)], 1,
+              'GotWantException', 'gotwant'))
+    B.append(('raise_percent_message', ['>>> t(%d)' % k, ">>> raise ValueError('100%% wrong: %%s %%d {} {0} \\\\1')"], [], 1, 'ValueError', 'exception'))
     B.append(('traceback_want_mismatch', ['>>> boom(%d)' % k], ['Traceback (most recent call last):', 'KeyError: other'], 1, 'GotWantException', 'gotwant'))
     return B
 
